@@ -82,6 +82,7 @@ struct RuntimeFunctionIndices {
     math_round: u32,
     math_floor: u32,
     math_ceil: u32,
+    math_not: u32,
     math_atan2: u32,
     math_pow: u32,
     math_log: u32,
@@ -623,6 +624,7 @@ impl WasmGenerator {
         self.rt.math_floor = self.add_import_from("math", "floor", type_idx_f64_f64);
         self.rt.math_ceil = self.add_import_from("math", "ceil", type_idx_f64_f64);
         self.rt.math_log = self.add_import_from("math", "log", type_idx_f64_f64);
+        self.rt.math_not = self.add_import_from("math", "not", type_idx_f64_f64);
 
         // Type: (f64, f64) -> f64
         let type_idx_f64_f64_f64 = self.type_section.len();
@@ -4658,6 +4660,7 @@ impl WasmGenerator {
             "round" => Some(self.rt.math_round),
             "floor" => Some(self.rt.math_floor),
             "ceil" => Some(self.rt.math_ceil),
+            "not" => Some(self.rt.math_not),
             "atan2" => Some(self.rt.math_atan2),
             "pow" => Some(self.rt.math_pow),
             "log" => Some(self.rt.math_log),
